@@ -241,6 +241,11 @@ impl PacketBuilder {
             buffer.resize(self.min_size, 0);
         }
 
+        #[cfg(feature = "quinn_rs_quinn_verif")]
+        if conn.verif_take_reserved_bits() {
+            buffer[self.partial_encode.start] |= if self.short_header { 0x18 } else { 0x0c };
+        }
+
         let space = &conn.spaces[self.space];
         let (header_crypto, packet_crypto) = if let Some(ref crypto) = space.crypto {
             (&*crypto.header.local, &*crypto.packet.local)
